@@ -37,7 +37,7 @@ ASSUMPTIONS = [
     "argument mutation is counted, not judged",
     "the filter clause is read as: every leaf of the result is a leaf of d AND lies inside a part selected by the filters",
 ]
-BUDGET = {"quick": 300, "thorough": 2400}
+BUDGET = {"quick": 600, "thorough": 3600}
 
 SCAL4 = [0, 1, "s", None]
 SCAL2 = [0, "s"]
@@ -281,7 +281,8 @@ def _rename_pattern(pat, chars):
 def _needs(still_fails, acl, docs):
     """Label a violation by the input feature it needs.  A feature is blamed only if the same case with that feature
     neutralised (string scalars turned into the number 7; '/' and '~' in keys and patterns turned into '_') no longer
-    violates anything: still_fails(docs', acl') -> bool re-runs the real code.  Used for the signature only."""
+    shows the same symptom: still_fails(docs', acl') -> bool re-runs the real code.  Used for the signature only, never
+    for the verdict."""
     ft = R.features(acl, *docs)
     if ft["string"] and not still_fails([_no_strings(d) for d in docs], acl):
         return "string scalar below a pattern"
